@@ -88,6 +88,8 @@ C03InDomain(e) == e.built /\ (e.side = "taker" => e.vaccept)
 P_C03(e) == C03InDomain(e) => C03Reasons(e) = {}
 
 (* --------------------------------------------------------------- P_C08 *)
+\* e.txidok: the returned (announced) txid is the id of the transaction that was
+\* actually published (signed, as handed to the broadcast interface).
 \* e.ann: returned (announced) output index, 0-based; e.swapidx: indices
 \* (0-based) of the outputs of the BROADCAST transaction that carry the swap
 \* script with the swap amount (Liquid: as unblinded with the announced key).
@@ -110,9 +112,13 @@ SCasesOf(ch) ==
         b \in Backends(ch), s \in Honest(ch), sp \in {"csv", "coop"}, f \in FeeC}
 SCases == SCasesOf("btc") \cup SCasesOf("lbtc")
 ClnVersions == {"v23.02", "v24.11"}      \* below / at-or-above the PSBT v2 gate "v23.05"
+\* kinds of the wallet's funding inputs: signing a nested (p2sh-p2wkh) or legacy
+\* (p2pkh) input adds a scriptSig, so the id of the signed transaction differs
+\* from the id of the unsigned (prepared / PSBT) transaction
+InKinds(ch) == IF ch = "btc" THEN {"p2wkh", "np2wkh", "p2pkh"} ELSE {"p2wkh"}
 OCasesOf(ch) ==
-    {[kind |-> "o", chain |-> ch, backend |-> b, outs |-> s, nin |-> n, ver |-> v] :
-        b \in Backends(ch), s \in Honest(ch), n \in 1..3, v \in ClnVersions}
+    {[kind |-> "o", chain |-> ch, backend |-> b, outs |-> s, nin |-> n, ver |-> v, inkind |-> k] :
+        b \in Backends(ch), s \in Honest(ch), n \in 1..3, v \in ClnVersions, k \in InKinds(ch)}
 OCases == {c \in OCasesOf("btc") \cup OCasesOf("lbtc") : c.backend = "cln" \/ c.ver = "v24.11"}
 
 (* ------------------------------------------------- lemmas (checked by TLC) *)
@@ -120,16 +126,20 @@ OCases == {c \in OCasesOf("btc") \cup OCasesOf("lbtc") : c.backend = "cln" \/ c.
 \* spend path uses is a good one
 LemmaTakerOutpoint == \A ch \in Chains : \A s \in Shapes(ch) :
                           ImplAccept(ch, s) => ImplUseIdx(ch, s) \in GoodIdx(s)
-\* maker side: honest funding results on which the DESIGNED output selection
-\* does not land on the swap output (design-level suspects; each is executed
-\* on the real code, only a reproduction there is a violation)
+\* maker side: on every honest funding result the designed output selection of
+\* the spend paths and of the opening (announce) paths lands on the swap output
+\* (before the repairs of GetVoutAndVerify / LiquidOnChain.CreateOpeningTransaction
+\* the sets below were not empty: change = amount ahead of the swap output on
+\* Bitcoin, every swap output not at index 0 on Liquid)
 DesignSuspectsSpend(ch) == {s \in Honest(ch) : ImplUseIdx(ch, s) \notin GoodIdx(s)}
-\* the Liquid opening path returns the zero value of its named result
-DesignAnn(ch, s) == IF ch = "lbtc" THEN 1 ELSE ImplUseIdx(ch, s)
+DesignAnn(ch, s) == ImplUseIdx(ch, s)
 DesignSuspectsAnn(ch) == {s \in Honest(ch) : DesignAnn(ch, s) \notin GoodIdx(s)}
-LemmaSuspectsAreDup == /\ DesignSuspectsSpend("lbtc") = {}
-                       /\ \A s \in DesignSuspectsSpend("btc") : ShapeClass("btc", s) = "dupamt-before"
-                       /\ \A s \in Honest("btc") : ShapeClass("btc", s) = "dupamt-before" => s \in DesignSuspectsSpend("btc")
+LemmaNoSuspects == \A ch \in Chains : DesignSuspectsSpend(ch) = {} /\ DesignSuspectsAnn(ch) = {}
+\* ... including the shapes the validator refuses conservatively
+LemmaDupHandled == \A ch \in Chains : \A s \in Honest(ch) :
+                      ShapeClass(ch, s) # "plain" => ImplUseIdx(ch, s) \in GoodIdx(s)
+\* design predictions compared with the observations (drift, never a violation)
+PredBuilt(e) == e.run /\ ~(e.chain = "lbtc" /\ e.fee = "zero") /\ ImplUseIdx(e.chain, e.outs) # 0
 \* the fee classes used by the harness leave a positive value (cases are not vacuous)
 HarnessAmounts == {100000, 2000000000}
 HarnessRates   == [err |-> 1000, zero |-> 1000, low |-> 253, normal |-> 2500, huge |-> 25000]   \* effective sat/kw
